@@ -23,7 +23,6 @@ func init() {
 }
 
 func runC15(c *Ctx) {
-	c15Bounds(c)
 	c15Panics(c)
 	c15Alloc(c)
 	readerNextFrameRules(c, "C15")
@@ -43,6 +42,11 @@ func runC15(c *Ctx) {
 	// the handshakes guard the size assertions of the accept computation
 	httpUpgraderRules(c, "C15")
 	serverUpgraderRules(c, "C15")
+	// other folds of functions with reviewed sites
+	c02Cipher(c)
+	c12Cbuf(c)
+	// last: the bounds rule uses what every fold above established about the sites it executed
+	c15Bounds(c)
 }
 
 // reviewedBounds: function + expression -> why the access is in range. The
@@ -144,7 +148,7 @@ func c15Bounds(c *Ctx) {
 	reach := c.reachableFromPeerInput()
 	c.R.Note("compiler reports %d unproven bounds checks in the three packages; %d functions are reachable from the decoding entry points", len(sites), len(reach))
 	seen := map[string]bool{}
-	inReach, outReach, byFold := 0, 0, 0
+	inReach, outReach, byFold, byBounded := 0, 0, 0, 0
 	for _, s := range sites {
 		if !reach[s.Func] {
 			outReach++
@@ -191,12 +195,15 @@ func c15Bounds(c *Ctx) {
 				}
 			}
 			c.R.OK(rule, rule+"/"+k, pos, "reviewed: "+why)
+		} else if why, ok := c.decidedByBoundedFold(s); ok {
+			c.R.OK(rule, rule+"/"+k, pos, why)
+			byBounded++
 		} else {
-			c.R.Fail(rule, rule+"/"+k, pos, "index/slice expression `"+s.Expr+"` in "+s.Func+" is reachable from peer input, is not proven in range by the compiler and is not in the reviewed table")
+			c.R.Fail(rule, rule+"/"+k, pos, "index/slice expression `"+s.Expr+"` in "+s.Func+" is reachable from peer input, is not proven in range by the compiler, is not in the reviewed table and is not decided by a fold of its function")
 		}
 	}
 	c.R.Sites += len(sites)
-	c.R.Sample(map[string]any{"rule": rule, "compiler_unproven_sites": len(sites), "in_peer_reachable_functions": inReach, "outside": outReach, "decided_by_total_fold": byFold})
+	c.R.Sample(map[string]any{"rule": rule, "compiler_unproven_sites": len(sites), "in_peer_reachable_functions": inReach, "outside": outReach, "decided_by_total_fold": byFold, "decided_by_bounded_fold": byBounded})
 }
 
 // reviewedPanics: function -> why its explicit panic cannot be triggered by peer input.
